@@ -538,6 +538,9 @@ static Function *find_module_function(Environment *env, const char *module_name,
     return NULL;
 }
 
+/* Maximum length of a chain of nested imports */
+#define MAX_IMPORT_DEPTH 256
+
 /* Load and parse a module file */
 static ASTNode *load_module_internal(const char *module_path, Environment *env, bool use_cache, ModuleList *modules_to_track) {
     if (!module_path) return NULL;
@@ -617,8 +620,20 @@ static ASTNode *load_module_internal(const char *module_path, Environment *env, 
         return NULL;
     }
     
-    /* Process imports first - modules may depend on symbols from imported modules */
-    if (!process_imports(module_ast, env, modules_to_track, module_path)) {
+    /* Process imports first - modules may depend on symbols from imported modules.
+     * Each level of a chain of imports (a imports b imports c ...) is one level of
+     * recursion through process_imports; bound it instead of running out of stack. */
+    static int import_depth = 0;
+    bool imports_ok = false;
+    if (import_depth >= MAX_IMPORT_DEPTH) {
+        fprintf(stderr, "Error: Import nesting depth exceeded maximum (%d) at module '%s'\n",
+                MAX_IMPORT_DEPTH, module_path);
+    } else {
+        import_depth++;
+        imports_ok = process_imports(module_ast, env, modules_to_track, module_path);
+        import_depth--;
+    }
+    if (!imports_ok) {
         fprintf(stderr, "Error: Failed to process imports for module '%s'\n", module_path);
         free_ast(module_ast);
         free_tokens(tokens, token_count);
